@@ -18,6 +18,13 @@ func viaUnknowing(e error) error {
 	return wire.Decode(re)
 }
 
+// atUnknowing is what a process that knows none of the types holds after receiving e.
+func atUnknowing(e error) error {
+	enc := wire.Copy(wire.Encode(e))
+	wire.Rename(enc, -1, "~u")
+	return wire.Decode(enc)
+}
+
 // H_C02_IsTransfer: Is(e, r) is the same before and after e (and/or r) crossed
 // the network, through knowing and unknowing processes.
 func H_C02_IsTransfer(v *sym.V) {
@@ -43,15 +50,31 @@ func H_C02_IsTransfer(v *sym.V) {
 		r = errors.WithMessage(e, "extra")
 	}
 	before := errors.Is(e, r)
+	v.Assert("isany-agrees-locally", errors.IsAny(e, r) == before)
 	v.Assert("reflexive-after-hop", errors.Is(wire.Hop(e), e))
-	switch v.Choice("pattern", 4) {
+	switch v.Choice("pattern", 5) {
 	case 0:
-		v.Assert("e-hop", errors.Is(wire.Hop(e), r) == before)
+		h := wire.Hop(e)
+		v.Assert("e-hop", errors.Is(h, r) == before)
+		v.Assert("e-hop-isany", errors.IsAny(h, r) == before)
 	case 1:
-		v.Assert("e-2hops", errors.Is(wire.Hop(wire.Hop(e)), r) == before)
+		h := wire.Hop(wire.Hop(e))
+		v.Assert("e-2hops", errors.Is(h, r) == before)
+		v.Assert("e-2hops-isany", errors.IsAny(h, r) == before)
 	case 2:
-		v.Assert("e-unknowing", errors.Is(viaUnknowing(e), r) == before)
-	case 3, 4:
+		h := viaUnknowing(e)
+		v.Assert("e-unknowing", errors.Is(h, r) == before)
+		v.Assert("e-unknowing-isany", errors.IsAny(h, r) == before)
+	case 4:
+		// both arrive at a process that knows none of their types and are compared there
+		if r == nil || (before && !isModel(e, r)) {
+			v.Reach("carve-out")
+			return
+		}
+		ue, ur := atUnknowing(e), atUnknowing(r)
+		v.Assert("both-at-unknowing", errors.Is(ue, ur) == before)
+		v.Assert("both-at-unknowing-isany", errors.IsAny(ue, ur) == before)
+	case 3:
 		// r is transferred. Carve-out of the property: a local match that exists only
 		// through a foreign type's own Is method comparing object identity (e.g.
 		// syscall.Errno.Is against the os.Err* sentinel objects) cannot survive r's
